@@ -233,7 +233,7 @@ static void w_apply(mc_op_t o)
         break;
     }
     }
-    if (ab) MC_CHECK(PC09, 0, "unexpected %s inside the library: %s", ab == 3 ? "runaway constructor/destructor loop (more than 4096 calls)" : ab == 2 ? "assertion failure" : "abort()", ab == 2 ? shim_assert_msg : "");
+    if (ab) MC_CHECK(PC09, 0, "unexpected %s inside the library: %s", ab == 3 ? "runaway constructor/destructor loop (more than 4096 calls)" : ab == 3 ? "non-termination (a library call still running after 3 s)" : ab == 2 ? "assertion failure" : "abort()", ab == 2 ? shim_assert_msg : "");
     else if (mc_checking && !mc_terminal) MC_CHECK(PC09, shim_errors == 0, "the vector passed a pointer to free()/realloc() that it does not own");
 }
 
